@@ -158,6 +158,8 @@ type Engine struct {
 	knownHit    map[string]*Violation
 	timeNow     *Term
 	nowSeq      int
+	stubOn      map[string]bool
+	rttSamples  int
 	crcMemo     map[string]*Term
 	crcApps     []crcApp
 	bitsSeq     int
@@ -231,6 +233,8 @@ func (e *Engine) resetPath(prefix []decision) {
 	e.nowSeq, e.crcSeq, e.rndSeq, e.bitsSeq = 0, 0, 0, 0
 	e.pathVars = e.pathVars[:0]
 	e.crcMemo = nil
+	e.stubOn = map[string]bool{}
+	e.rttSamples = 0
 	e.crcApps = nil
 }
 
@@ -860,6 +864,12 @@ func (e *Engine) callFunction(fn *ssa.Function, args []Value, pos token.Pos) Val
 	if h, ok := intrinsics[fn.String()]; ok {
 		e.stubsUsed[fn.String()]++
 		return h(e, fn, args)
+	}
+	if len(e.stubOn) > 0 {
+		if st, ok := optionalStubs[fn.String()]; ok && e.stubOn[st.name] {
+			e.stubsUsed[fn.String()+" (summarised)"]++
+			return st.h(e, fn, args)
+		}
 	}
 	if fn.Pkg != nil && fn.Pkg != e.pkg && fn.Name() == "init" {
 		return nil
